@@ -2,9 +2,10 @@
 # usage: tools/seedtest.sh <seed-name> <check-id>...   applies /verif/seeded/<seed>/patch.diff to /repo, runs the
 # quick checks, restores /repo. Prints one line per check: CAUGHT / MISSED / INCONCLUSIVE
 S=$1; shift
-cd /verif
-if [ -n "$(git -C /repo status --porcelain --untracked-files=no)" ]; then echo "/repo not clean"; exit 9; fi
-git -C /repo apply /verif/seeded/$S/patch.diff || { echo "patch does not apply"; exit 9; }
+V=${VERIF_DIR:-/verif}; R=${REPO_DIR:-/repo}
+cd $V
+if [ -n "$(git -C $R status --porcelain --untracked-files=no)" ]; then echo "/repo not clean"; exit 9; fi
+git -C $R apply $V/seeded/$S/patch.diff || { echo "patch does not apply"; exit 9; }
 for c in "$@"; do
   out=$(VERIF_SEED=${VERIF_SEED:-1} ./check $c ${TIER:-quick} 2>&1); rc=$?
   sig=$(echo "$out" | grep -E "^  [^ ]+: " | head -1 | cut -c1-160)
@@ -14,5 +15,5 @@ for c in "$@"; do
     *) echo "$S $c INCONCLUSIVE rc=$rc $(echo "$out" | tail -2 | tr '\n' ' ' | cut -c1-200)";;
   esac
 done
-git -C /repo checkout -- .
-git -C /verif checkout -- evidence 2>/dev/null
+git -C $R checkout -- .
+git -C $V checkout -- evidence 2>/dev/null
